@@ -399,7 +399,7 @@ def run(chk):
     tick('round/conv/elem')
     # ---------------------------------------------------------------- (d) isotopic_distribution
     cap = 600 if quick else 2500
-    n_iso = 130 if quick else 4000
+    n_iso = 100 if quick else 4000
     cases = list(corpus)
     for i in range(n_iso):
         o = gen_opts(rng, constants)
@@ -584,7 +584,7 @@ def run(chk):
         left = 12
         f = {}
         for e in els:
-            c = rng.randint(0, min(left, 6))
+            c = rng.randint(0, min(left, 4 if e in ('Se', 'Fe') else 6))
             left -= c
             if c:
                 f[e] = c
@@ -597,8 +597,16 @@ def run(chk):
         o = dict(base_o, use_neutron_count=c[1])
         return iso_line((c[0], o), floor=None, fmt='exact')
 
+    _mn = {}
+
+    def mn(c):
+        k = repr(c)
+        if k not in _mn:
+            _mn[k] = multinomial_formula(table, c[0], c[1])
+        return _mn[k]
+
     def x_ref(c):
-        tot = multinomial_formula(table, c[0], c[1])
+        tot = mn(c)
         mx = max(tot.values())
         return sorted((m, a / mx) for m, a in tot.items())
 
@@ -619,7 +627,7 @@ def run(chk):
         1e-6 at every element step, so reference peaks closer than 2e-5 are clustered and matched within 2e-5."""
         o = dict(base_o, use_neutron_count=c[1], distribution_resolution=6, is_abundance_sum=True)
         r = call_iso(pt, (c[0], o))
-        tot = multinomial_formula(table, c[0], c[1])
+        tot = mn(c)
         sm = sum(tot.values())
         members = sorted(tot.items())
         cl = []          # cluster index per member (single linkage, gap < 2e-5)
